@@ -63,13 +63,16 @@ def expected_devices(spa):
     return out
 
 
-def check_list(spa, lst, cls, devclass, expected):
+def check_list(spa, lst, cls, devclass, expected, ordered=True):
     want = [e for e in expected if e[2] == devclass]
     got = members(lst)
     got_keys = [m[1].key for m in got]
     want_keys = [e[0] for e in want]
     ensures("each-device-at-most-once", len(set(got_keys)) == len(got_keys))
-    ensures("only-exposable-devices-in-table-order", got_keys == [k for k in want_keys if k in got_keys])
+    if ordered:
+        ensures("only-exposable-devices-in-table-order", got_keys == [k for k in want_keys if k in got_keys])
+    else:
+        ensures("only-exposable-devices", sorted(got_keys) == sorted([k for k in want_keys if k in got_keys]))
     for (d, ud, c) in want:
         if d not in got_keys:
             ensures("omitted-only-when-never-wired", not wired(spa, d))
@@ -136,4 +139,39 @@ def lookup_of_a_wired_device(combo, block: bytes):
         ensures("absent-only-when-not-wired", True if ud is None else not wired(spa, d))
     else:
         ensures("present-only-when-wired-and-it-is-that-device", both(wired(spa, d), dev.key == d))
+    cover("reached-end", True)
+
+
+# ------------------------------------------------------------------ the blocking facade
+from geckolib.automation.facade import GeckoFacade
+
+
+class SyncDescriptor:
+    name = "My Spa"
+    identifier_as_string = "SPA01:02:03:04:05:06"
+
+
+@harness(prop="C12", cases="c11_representatives", cases_quick="c11_quick",
+         target="geckolib.automation.facade:GeckoFacade.scan_outputs", name="sync_inventory_equals_output_wiring",
+         uses=["get_value_contract", "temperature_is_some_finite_number"], timeout=120)
+def sync_inventory_equals_output_wiring(combo, block: bytes):
+    """the blocking facade's own copy of the output scan (iteration order of its set() is unspecified: order not claimed)"""
+    requires(len(block) == 1024)
+    enable_guarded_collections()
+    spa = connected_spa(combo, block)
+    spa.descriptor = SyncDescriptor()
+    acc = spa.accessors
+    exclude_case_unless(GeckoConstants.KEY_TEMP_UNITS in acc)
+    f = new(GeckoFacade)
+    f._observers = []
+    f._spa = spa
+    f._ecomode = None
+    f.scan_outputs()
+    exp = expected_devices(spa)
+    check_list(spa, f._pumps, GeckoPump, GeckoConstants.DEVICE_CLASS_PUMP, exp, False)
+    check_list(spa, f._blowers, GeckoBlower, GeckoConstants.DEVICE_CLASS_BLOWER, exp, False)
+    check_list(spa, f._lights, GeckoLight, GeckoConstants.DEVICE_CLASS_LIGHT, exp, False)
+    ensures("sensors-whose-items-exist", [s.name for s in f.sensors] == [s[0] for s in GeckoConstants.SENSORS if s[1] in acc])
+    ensures("binary-sensors-whose-items-exist",
+            [s.name for s in f.binary_sensors] == [s[0] for s in GeckoConstants.BINARY_SENSORS if s[1] in acc])
     cover("reached-end", True)
